@@ -10,6 +10,33 @@ from molli.storage.collection import Collection
 from engine import envmodels as E
 
 _counter = itertools.count()
+
+
+class InjectedFault(OSError):
+    pass
+
+
+class _Fault:
+    """raises InjectedFault at the n-th event of a kind (write / close / open) counted since arm()"""
+
+    def __init__(self):
+        self.kind, self.at, self.n = None, 0, 0
+
+    def arm(self, kind, at):
+        self.kind, self.at, self.n = kind, at, 0
+
+    def disarm(self):
+        self.kind = None
+
+    def hit(self, kind):
+        if self.kind == kind:
+            self.n += 1
+            if self.n == self.at:
+                self.kind = None
+                raise InjectedFault(f"injected {kind} fault")
+
+
+FAULT = _Fault()
 if REAL:
     _TMP = tempfile.mkdtemp(prefix="verif_real_")
     from pathlib import Path as _RealPath
@@ -19,8 +46,9 @@ if REAL:
         writes = []
 
         def open(self, mode="r", *a, **k):
+            FAULT.hit("open")
             f = super().open(mode, *a, **k)
-            if "b" in mode and mode != "rb":
+            if "b" in mode:
                 return _Rec(f, str(self))
             return f
 
@@ -29,8 +57,13 @@ if REAL:
             self._f, self._name = f, name
 
         def write(self, b):
+            FAULT.hit("write")
             RecPath.writes.append((self._name, self._f.tell(), bytes(b)))
             return self._f.write(b)
+
+        def close(self):
+            self._f.close()
+            FAULT.hit("close")
 
         def truncate(self, n=None):
             RecPath.writes.append((self._name, self._f.tell() if n is None else n, None))
@@ -40,8 +73,25 @@ if REAL:
             return getattr(self._f, a)
 
     U.Path = RecPath
+    B.Path = RecPath
+    C.Path = RecPath
 else:
     E.install_storage_models()
+    _mw, _mc, _po = E.MemStream.write, E.MemStream.close, E.FakePath.open
+
+    def _w(self, b):
+        FAULT.hit("write")
+        return _mw(self, b)
+
+    def _c(self):
+        _mc(self)
+        FAULT.hit("close")
+
+    def _o(self, mode="r"):
+        FAULT.hit("open")
+        return _po(self, mode)
+
+    E.MemStream.write, E.MemStream.close, E.FakePath.open = _w, _c, _o
 
 
 def new_path():
@@ -85,17 +135,15 @@ def clear_writes():
 def lock_state(p):
     """(readers, writers) held on the library's lock as far as this process can tell"""
     if REAL:
-        from fasteners import InterProcessReaderWriterLock
-        from molli._aux.lock import rwlock
-        lk = InterProcessReaderWriterLock(rwlock(p))
-        # a held write lock (even by this process through another lock object) makes a 0-timeout acquire fail
-        if lk.acquire_write_lock(timeout=0.05):
-            lk.release_write_lock()
-            return (0, 0)
-        if lk.acquire_read_lock(timeout=0.05):
-            lk.release_read_lock()
-            return (1, 0)
-        return (0, 1)
+        # fcntl locks do not conflict inside one process: probe from a fresh process (as observe_at of C04 says)
+        import subprocess, sys
+        code = ("import sys\nfrom fasteners import InterProcessReaderWriterLock\nfrom molli._aux.lock import rwlock\n"
+                "lk = InterProcessReaderWriterLock(rwlock(sys.argv[1]))\n"
+                "if lk.acquire_write_lock(timeout=0.3): print('0 0')\n"
+                "elif lk.acquire_read_lock(timeout=0.3): print('1 0')\n"
+                "else: print('0 1')\n")
+        out = subprocess.run([sys.executable, "-c", code, str(p)], capture_output=True, text=True, env=dict(os.environ)).stdout.split()
+        return (int(out[0]), int(out[1]))
     st = E.RWLock.registry.get(str(p), {"r": 0, "w": 0})
     return (st["r"], st["w"])
 
